@@ -74,13 +74,17 @@ def r1(tree, rep):
               key="C15.R1:register:sets")
     pp = g.call_nodes(lambda c: dotted(c.func) == "producer.pauseProducing")
     ss = g.call_nodes(lambda c: dotted(c.func) == "producer.startStreaming")
-    st = [t for t in g.nodes(lambda s: isinstance(s, ast.If)) if (isinstance(g.stmt[t].test, ast.Name) and g.stmt[t].test.id == "streaming")]
-    # exclude the early `if not streaming:` wrapper block by requiring the test to be the bare name
-    ok = len(pp) == 1 and len(ss) == 1 and len(st) >= 1
+    from ..cfg import truthy_atom as _ta
+    gs = build(reg, split=True)
+    pp = gs.call_nodes(lambda c: dotted(c.func) == "producer.pauseProducing")
+    ss = gs.call_nodes(lambda c: dotted(c.func) == "producer.startStreaming")
+    is_push = _ta(lambda e: isinstance(e, ast.Name) and e.id == "streaming")
+    is_paused = _ta(lambda e: is_self_attr(e, "_paused"))
+    ok = len(pp) == 1 and len(ss) == 1
     if ok:
-        ok = not g.guarded_by(st, pp, 'T') and not g.guarded_by(pt, pp, 'T') and all(g.branch_never_reaches(t, 'T', ss) for t in st) \
-            and all(g.branch_never_reaches(t, 'F', pp) for t in st)
-        c = [c for c in ast.walk(g.stmt[ss[0]]) if isinstance(c, ast.Call) and dotted(c.func) == "producer.startStreaming"][0]
+        # push producers: pauseProducing() only when streaming and paused; pull producers: only startStreaming(self._paused)
+        ok = not gs.only_when(pp, is_push, True) and not gs.only_when(pp, is_paused, True) and not gs.only_when(ss, is_push, False)
+        c = [c for c in ast.walk(gs.stmt[ss[0]]) if isinstance(c, ast.Call) and dotted(c.func) == "producer.startStreaming"][0]
         ok = ok and len(c.args) == 1 and is_self_attr(c.args[0], "_paused")
     rep.check("C15.R1", "registerProducer pauses a new producer exactly once when paused: a push producer by pauseProducing(), a pull producer "
               "only through startStreaming(self._paused)", ok, site(reg, OUT), key="C15.R1:register:single-pause",
@@ -142,12 +146,16 @@ def r2(tree, rep):
 
 
 def r3(tree, rep):
+    from ..cfg import nonempty_atom, truthy_atom
+    some_paused = nonempty_atom(lambda e: is_self_attr(e, "_paused_subchannels"))
+    has_conn = truthy_atom(lambda e: is_self_attr(e, "_connection"))
     for name, op, edge in (("subchannel_pauseProducing", "add", "pause"), ("subchannel_resumeProducing", "discard", "resume"),
                            ("subchannel_stopProducing", "discard", "resume")):
         fn = tree.func(INB, "Inbound", name)
-        g = build(fn)
-        was = g.nodes(lambda s: isinstance(s, ast.Assign) and isinstance(s.value, ast.Call) and dotted(s.value.func) == "bool"
-                      and is_self_attr(s.value.args[0], "_paused_subchannels"))
+        g = build(fn, split=True)
+        # was_paused = <is the set non-empty now>, sampled before the update
+        was = g.nodes(lambda s: isinstance(s, ast.Assign) and len(s.targets) == 1 and isinstance(s.targets[0], ast.Name)
+                      and some_paused(s.value) is True)
         upd = g.call_nodes(lambda c: dotted(c.func) in ("self._paused_subchannels." + op, "self._paused_subchannels.remove" if op == "discard" else "self._paused_subchannels." + op)
                            and isinstance(c.args[0], ast.Name) and c.args[0].id == params(fn)[0])
         act = g.call_nodes(lambda c: dotted(c.func) == "self._connection.%sProducing" % edge)
@@ -157,29 +165,27 @@ def r3(tree, rep):
                   what="%s forgets to record the subchannel's request when no connection exists: the state does not carry over to the next connection" % name)
         if ok:
             wv = g.stmt[was[0]].targets[0].id
-            tests = [t for t in g.nodes(lambda s: isinstance(s, ast.If)) if act[0] in g.reach(g.branch_targets(t, 'T'))]
-            cond = g.stmt[tests[0]].test if len(tests) == 1 else None
-            good = False
-            if isinstance(cond, ast.BoolOp) and isinstance(cond.op, ast.And):
-                parts = cond.values
-                has_conn = any(is_self_attr(p, "_connection") for p in parts)
-                if edge == "pause":
-                    good = has_conn and len(parts) == 2 and any(isinstance(p, ast.UnaryOp) and isinstance(p.op, ast.Not) and isinstance(p.operand, ast.Name)
-                                                                and p.operand.id == wv for p in parts)
-                else:
-                    good = has_conn and len(parts) == 3 and any(isinstance(p, ast.Name) and p.id == wv for p in parts) \
-                        and any(isinstance(p, ast.UnaryOp) and isinstance(p.op, ast.Not) and is_self_attr(p.operand, "_paused_subchannels") for p in parts)
+            was_paused = truthy_atom(lambda e: isinstance(e, ast.Name) and e.id == wv)
+            if edge == "pause":
+                # exactly when connected and the set was empty before
+                good = not g.only_when(act, has_conn, True) and not g.only_when(act, was_paused, False)
+                avoid = set(g.cond_edges(has_conn, False)) | set(g.cond_edges(was_paused, True))
+            else:
+                # exactly when connected, the set was non-empty before and is empty now
+                good = not g.only_when(act, has_conn, True) and not g.only_when(act, was_paused, True) and not g.only_when(act, some_paused, False)
+                avoid = set(g.cond_edges(has_conn, False)) | set(g.cond_edges(was_paused, False)) | set(g.cond_edges(some_paused, True))
+            good = good and g.exit not in g.reach(g.entry, avoid_nodes=set(act), avoid_edges=avoid, explicit_only=True)
             rep.check("C15.R3", "Inbound.%s %ss the connection exactly on the %s edge of _paused_subchannels" % (
-                name, edge, "empty->non-empty" if edge == "pause" else "non-empty->empty"), good and not g.guarded_by(tests, act, 'T'), site(fn, INB),
+                name, edge, "empty->non-empty" if edge == "pause" else "non-empty->empty"), good, site(fn, INB),
                 key="C15.R3:%s:edge" % name, what="the connection is %sd at the wrong moment (not exactly when the set of pausing subchannels %s)" % (
                     edge, "becomes non-empty" if edge == "pause" else "becomes empty"))
     uc = tree.func(INB, "Inbound", "use_connection")
-    g = build(uc)
-    pt = [t for t in g.nodes(lambda s: isinstance(s, ast.If)) if is_self_attr(g.stmt[t].test, "_paused_subchannels")]
+    g = build(uc, split=True)
     pa = g.call_nodes(lambda c: dotted(c.func) == "self._connection.pauseProducing")
     setc = g.nodes(lambda s: isinstance(s, ast.Assign) and any(is_self_attr(t, "_connection") for t in s.targets))
-    ok = len(pt) == 1 and len(pa) == 1 and len(setc) == 1 and not g.guarded_by(pt, pa, 'T') and g.must_pass(pa, start=g.branch_targets(pt[0], 'T'), to=[g.exit], explicit_only=True) \
-        and not g.precedes(setc, pa)
+    edges = g.cond_edges(some_paused, True)
+    ok = len(pa) == 1 and len(setc) == 1 and bool(edges) and not g.only_when(pa, some_paused, True) \
+        and all(g.exit not in g.reach([y], avoid_nodes=set(pa), explicit_only=True) for (x, y, l) in edges) and not g.precedes(setc, pa)
     rep.check("C15.R3", "Inbound.use_connection pauses the new connection iff some subchannel is still paused", ok, site(uc, INB), key="C15.R3:use_connection")
     own, foreign = class_writers(tree, "Inbound", "_paused_subchannels")
     ok = not foreign and all((w.kind == "assign" and w.fn == "__attrs_post_init__") or w.fn in ("subchannel_pauseProducing", "subchannel_resumeProducing", "subchannel_stopProducing") for w in own)
